@@ -84,6 +84,17 @@ def step (cfg : Cfg) (_ : Unit) (line : String) : Unit × String :=
       let (b, sb) := two (srvIsland cfg h) cfg.cacheKeyedByN
       ((), s!"sdk={a} srv={b}" ++ (if sa || sb then "\t#F:C20-island-cache-stale" else ""))
     | _, _, _, _, _ => ((), "bad-op")
+  | ["path2", s, r, w, i1, d1, p1, i2, d2, p2] =>
+    match field s, field r, field w, i1.toNat?, d1.toInt?, p1.toInt?, i2.toNat?, d2.toInt?, p2.toInt? with
+    | some s, some r, some w, some i1, some d1, some p1, some i2, some d2, some p2 =>
+      if d1 > 40 || d2 > 40 then ((), "bad-op") else
+      let n : Name := ⟨s, r, w⟩
+      let h := hashOf (canon n)
+      let show1 (o : Option Loc) : String := match o with | some l => renderLoc l | none => "panic"
+      let second := secondLocation cfg h i1 d1 p1 i2 d2 p2
+      let fresh := location cfg h i2 d2 p2
+      ((), s!"p1={show1 (location cfg h i1 d1 p1)} p2={show1 second}!{show1 fresh}" ++ (if second != fresh then "\t#F:C20-path-cache-stale" else ""))
+    | _, _, _, _, _, _, _, _, _ => ((), "bad-op")
   | ["chain", s, r, w, nn, d, p] =>
     match field s, field r, field w, nn.toNat?, d.toInt?, p.toInt? with
     | some s, some r, some w, some N, some depth, some per =>
@@ -115,7 +126,12 @@ def step (cfg : Cfg) (_ : Unit) (line : String) : Unit × String :=
         let fl := match Hv.Routing.gapOrOverlap servers N with
           | some _ => if cfg.validatesRanges then "" else "\t#F:C20-routing-unvalidated"
           | none => ""
-        ((), ",".intercalate cells ++ fl)
+        let firstGap := ((List.range N).map (· + 1)).find? fun i => (Hv.Routing.route servers i).isNone
+        let call := match firstGap with
+          | some _ => if cfg.unroutedIsError then " call=err" else " call=panic"
+          | none => ""
+        let fl2 := if firstGap.isSome && !cfg.unroutedIsError then "\t#F:C20-unrouted-island-panics" else ""
+        ((), ",".intercalate cells ++ call ++ fl ++ fl2)
   | ["load", p] =>
     match field p with
     | some p =>
@@ -141,7 +157,7 @@ def run (args : List String) : IO UInt32 := do
   let cfg : Cfg :=
     ⟨tri (arg kv "sdkPlusOne"), tri (arg kv "srvPlusOne"), natArg kv "srvBits", arg kv "hexVerb" == "no",
      natArg kv "cplMin", tri (arg kv "sliceClampsStart"), tri (arg kv "ctorsRejectSlash"),
-     natArg kv "defDepth", natArg kv "defPer", tri (arg kv "routeValidatesRanges"), tri (arg kv "islandCacheKeyedByN")⟩
+     natArg kv "defDepth", natArg kv "defPer", tri (arg kv "routeValidatesRanges"), tri (arg kv "islandCacheKeyedByN"), tri (arg kv "pathCacheKeyedByArgs"), tri (arg kv "unroutedReturnsError")⟩
   lineLoop (step cfg) ()
   return 0
 
